@@ -146,3 +146,12 @@ Fixpoint size (e : exp) : nat :=
   | EBin _ l r => S (size l + size r)
   | _ => 1
   end.
+
+(* Lua 5.4 manual §3.4.12: function calls and '...' are the multi-valued
+   expressions; enclosing one in parentheses truncates it to one value, so for
+   them (and only for them) parentheses are meaningful. *)
+Definition multi_valued (e : exp) : bool :=
+  match e with
+  | ECall _ _ _ _ | EEtc => true
+  | _ => false
+  end.
